@@ -110,24 +110,24 @@ LoadKo(s) == [s EXCEPT !.st[6] = @ + 1]
 Remove(s, k) == [s EXCEPT !.ent[k] = Absent]
 
 \* The entry a write installs.  cl: "none" explicit write, "load" completed load, "refresh" completed (re)load of a
-\* refresh.  A write over an absent or expired entry is a creation for the expiry calculator.  The refresh
-\* calculator is consulted with the update/reload hook whenever a node is physically present (see RefAny below).
+\* refresh.  A write over an absent or expired entry is a creation for both calculators and inherits nothing: an
+\* expired entry is absent, whether or not it has been swept (F21: the code used to consult the refresh calculator's
+\* update hook and to inherit both deadlines from the dead node).
 NewEntry(s, k, v, cl) ==
     LET old  == s.ent[k]
         c    == s.cfg
         created == ~Live(s, k)
-        inhExp  == IF HasExp(c) /\ old.p THEN old.exp ELSE INF
-        inhRef  == IF HasRef(c) /\ old.p THEN old.ref ELSE INF
+        inhExp  == IF HasExp(c) /\ ~created THEN old.exp ELSE INF
+        inhRef  == IF HasRef(c) /\ ~created THEN old.ref ELSE INF
         de   == ExpDur(c, IF created THEN "create" ELSE "update", v)
-        rh   == IF cl = "refresh" /\ old.p THEN "reload" ELSE IF old.p THEN "update" ELSE "create"
+        rh   == IF created THEN "create" ELSE IF cl = "refresh" THEN "reload" ELSE "update"
         dr   == RefDur(c, rh, v)
     IN [p |-> TRUE, v |-> v, w |-> Weight(c, v),
         exp |-> IF HasExp(c) /\ Pos(de) THEN Plus(s.now, de) ELSE inhExp,
         ref |-> IF HasRef(c) /\ Pos(dr) THEN Plus(s.now, dr) ELSE inhRef]
 Install(s, k, v, cl) == [s EXCEPT !.ent[k] = NewEntry(s, k, v, cl)]
-\* Writing over an expired-unswept entry: whether the refresh time is derived as for a creation or inherited
-\* from the dead node is not fixed by any listed property; both are accepted (the logged value is adopted).
-RefAny(s, k) == IF HasRef(s.cfg) /\ Dead(s, k) THEN {k} ELSE {}
+\* (until F21 was repaired the refresh time of a write over an expired-unswept entry was accepted either way)
+RefAny(s, k) == {}
 
 \* a counted read of a live entry: read hook of the expiry calculator, hit
 ReadHook(s, k) ==
